@@ -172,7 +172,15 @@ func getVal(v []byte, err error) (string, string) {
 	if err != nil {
 		return "", err.Error()
 	}
-	return string(v), ""
+	return canonVal(string(v)), ""
+}
+
+// canonVal keeps huge values out of the histories and the model: head + length.
+func canonVal(s string) string {
+	if len(s) > 256 {
+		return fmt.Sprintf("%s..%d", s[:16], len(s))
+	}
+	return s
 }
 
 type reader interface {
@@ -246,12 +254,19 @@ func runConc(p *concParams, prefix []int, extra func(w *harness.World, cr *concR
 						}
 					}
 					switch t {
+					case "putH":
+						// a record above the 128 KiB merge limit: cannot be merged whatever the buffer size
+						val = val + strings.Repeat("H", 132000)
+						t = "put"
+						fallthrough
 					case "putL":
 						// a value large enough to exceed the merge capacity of a 64-byte write buffer
-						val = val + strings.Repeat("L", 60)
+						if t == "putL" {
+							val = val + strings.Repeat("L", 60)
+						}
 						fallthrough
 					case "put":
-						b := model.Batch{{K: arg, V: val}}
+						b := model.Batch{{K: arg, V: canonVal(val)}}
 						call := tick()
 						kb, vb := []byte(arg), []byte(val)
 						err := db.Put(kb, vb, wo)
